@@ -6,7 +6,7 @@ def run(ctx):
     ctx.require_model_ok(r)
     shards = ctx.drive("d01", nshards=16, extra=["--opt", "which=c14"], timeout=7200, name="d14")
     ctx.validate("ItemsTrace", shards, heap="3g")
-    ctx.require_clauses(["ForceBalance", "MomentBalance", "Resultant", "PointLoadExact", "PressureResultant", "MassSymmetric", "MassTotal",
+    ctx.require_clauses(["ForceBalance", "MomentBalance", "Resultant", "PointLoadExact", "PointLoadValues", "SkippedAxesFree", "PressureResultant", "MassSymmetric", "MassTotal",
                          "MassPSD"])
     ctx.rule = ("internal forces of solid bodies (hex / tet / plane strain / axisymmetric / mixed; objective materials) at lattice states on "
                 "lattice-perturbed meshes: force and moment sums about spec-issued points with exact positions; body force / gravity "
